@@ -147,6 +147,55 @@ def menu():
     return [x for x in m if x is not None]
 
 
+FIXTURES = {
+    # string vertex labels (dot), integer ids (gml), in-house formats
+    'bip.dot': ('graph B {\n' + ''.join('p%d [bipartite=0];\n' % i for i in range(1, 7)) +
+                ''.join('h%d [bipartite=1];\n' % j for j in range(1, 6)) +
+                ''.join('p%d -- h%d;\n' % (i, 1 + (i * j) % 5) for i in range(1, 7) for j in (1, 2)) + '}\n'),
+    'bip.gml': ('graph [\n' + ''.join('  node [ id %d bipartite 0 ]\n' % i for i in range(1, 6)) +
+                ''.join('  node [ id %d bipartite 1 ]\n' % j for j in range(6, 10)) +
+                ''.join('  edge [ source %d target %d ]\n' % (i, j) for (i, j) in
+                        sorted({(i, 6 + (i * 2) % 4) for i in range(1, 6)} |
+                               {(i, 6 + (i * 3 + 1) % 4) for i in range(1, 6)})) + ']\n'),
+    'comp.kthlist': '17\n' + ''.join('%d : %d %d 0\n' % (i, 13 + i % 5, 13 + (i * 2 + 1) % 5)
+                                      if 13 + i % 5 != 13 + (i * 2 + 1) % 5 else
+                                      '%d : %d 0\n' % (i, 13 + i % 5) for i in range(1, 13)),
+    'bip.kthlist': '9\n1 : 6 7 0\n2 : 7 8 0\n3 : 6 9 0\n4 : 8 9 0\n5 : 6 8 0\n',
+    'bip.matrix': '4 5\n1 1 0 0 1\n0 1 1 0 0\n1 0 0 1 0\n0 0 1 1 1\n',
+    'simple.dot': ('graph G {\n' + ''.join('v%s;\n' % c for c in 'abcdefgh') +
+                   ''.join('v%s -- v%s;\n' % (a, b) for a, b in
+                           ['ab', 'bc', 'cd', 'de', 'ef', 'fg', 'gh', 'ha', 'ae', 'bf']) + '}\n'),
+    'simple.gml': ('graph [\n' + ''.join('  node [ id %d ]\n' % i for i in range(1, 8)) +
+                   ''.join('  edge [ source %d target %d ]\n' % (i, 1 + (i * 3) % 7) for i in range(1, 8)
+                           if i != 1 + (i * 3) % 7) + ']\n'),
+    'dag.dot': ('digraph D {\n' + ''.join('%d;\n' % i for i in range(1, 7)) +
+                '1 -> 3;\n2 -> 3;\n3 -> 5;\n4 -> 5;\n5 -> 6;\n2 -> 6;\n}\n'),
+    'dag.kthlist': '6\n1 : 0\n2 : 0\n3 : 1 2 0\n4 : 0\n5 : 3 4 0\n6 : 2 5 0\n',
+}
+
+
+def file_menu():
+    m = []
+
+    def c(tool, line):
+        m.append((tool, line.split(), ''))
+    for f in ('bip.dot', 'bip.gml', 'bip.kthlist', 'bip.matrix'):
+        c('cnfgen', 'php {FX}/' + f)
+        c('cnfgen', 'subsetcard {FX}/%s plantbiclique 2 2 addedges 1' % f)
+        c('pbgen', 'subsetcard {FX}/' + f)
+    c('cnfgen', 'php 4 3 -T xorcomp {FX}/comp.kthlist')
+    c('cnfgen', 'php 4 3 -T majcomp {FX}/comp.kthlist -T shuffle')
+    for f in ('simple.dot', 'simple.gml'):
+        c('cnfgen', 'kcolor 3 {FX}/' + f)
+        c('cnfgen', 'tseitin random {FX}/%s addedges 2' % f)
+        c('cnfgen', 'kclique 3 {FX}/%s plantclique 3' % f)
+        c('pbgen', 'matching {FX}/' + f)
+    for f in ('dag.dot', 'dag.kthlist'):
+        c('cnfgen', 'peb {FX}/' + f)
+        c('cnfgen', 'stone 3 {FX}/' + f)
+    return [x for x in m if x is not None]
+
+
 def argv_with_seed(tool, argv, seed):
     if tool == 'cnfshuffle':
         return ['--seed', str(seed)] + list(argv)
@@ -200,7 +249,13 @@ def run_processes(args, R):
     tier, batch, seed = args['tier'], args['batch'], args['seed']
     base, gitdir, plain = make_dirs()
     try:
-        jobs = [{'tool': t, 'argv': argv_with_seed(t, a, seed), 'stdin': s} for (t, a, s) in batch]
+        fx = os.path.join(base, 'fx')
+        os.makedirs(fx)
+        for name, text in FIXTURES.items():
+            with open(os.path.join(fx, name), 'w') as f:
+                f.write(text)
+        jobs = [{'tool': t, 'argv': [x.replace('{FX}', fx) for x in argv_with_seed(t, a, seed)],
+                 'stdin': s} for (t, a, s) in batch]
         results = {}
         for (label, hs, kind) in configs(tier):
             results[label] = run_batch(jobs, hs, gitdir if kind == 'git' else plain)
@@ -208,9 +263,10 @@ def run_processes(args, R):
         labels = list(results)
         for i, job in enumerate(jobs):
             ref = results[labels[0]][i]
-            case = {'part': 'P', 'tool': job['tool'], 'argv': job['argv'], 'stdin': job['stdin'],
+            case = {'part': 'P', 'tool': job['tool'],
+                    'argv': [x.replace(fx, '{FX}') for x in job['argv']], 'stdin': job['stdin'],
                     'tier': tier}
-            name = '%s:%s' % (job['tool'], _cmd_name(job['argv']))
+            name = '%s:%s' % (job['tool'], _cmd_name(case['argv']))
             if ref['status'] != 'ok':
                 R.bad('%s:status' % name, 'command failed: %s' % ref['status'], case)
                 R.case(sample=None, nontrivial=False)
@@ -276,10 +332,26 @@ def monitor_one(tool, argv, stdin, seed):
         return None, [], e
 
 
+_FXDIR = None
+
+
+def fixtures_dir():
+    global _FXDIR
+    if _FXDIR is None or _FXDIR[0] != os.getpid() or not os.path.isdir(_FXDIR[1]):
+        d = tempfile.mkdtemp(prefix='c07fx_')
+        for name, text in FIXTURES.items():
+            with open(os.path.join(d, name), 'w') as f:
+                f.write(text)
+        _FXDIR = (os.getpid(), d)
+    return _FXDIR[1]
+
+
 def check_monitor(case):
     tool, argv, stdin, seed = case['tool'], case['argv'], case['stdin'], case['seed']
-    out = []
     name = '%s:%s' % (tool, _cmd_name(argv))
+    if any('{FX}' in x for x in argv):
+        argv = [x.replace('{FX}', fixtures_dir()) for x in argv]
+    out = []
 
     def bad(sym, what):
         out.append({'key': '%s:%s' % (name, sym), 'what': what, 'case': dict(case)})
@@ -310,13 +382,19 @@ def check_monitor(case):
 
 
 def run_monitor(chunk, R):
-    for case in chunk:
-        vs, draws = check_monitor(case)
-        if draws:
-            R.stats['commands_with_draws'] += 1
-        R.stats['monitored'] += 1
-        R.extend(vs)
-        R.case(sample=None, nontrivial=draws > 0)
+    global _FXDIR
+    try:
+        for case in chunk:
+            vs, draws = check_monitor(case)
+            if draws:
+                R.stats['commands_with_draws'] += 1
+            R.stats['monitored'] += 1
+            R.extend(vs)
+            R.case(sample=None, nontrivial=draws > 0)
+    finally:
+        if _FXDIR is not None and _FXDIR[0] == os.getpid():
+            shutil.rmtree(_FXDIR[1], ignore_errors=True)
+            _FXDIR = None
 
 
 # ---------------------------------------------------------------- library --
@@ -399,7 +477,13 @@ def replay(case):
     # process part: rerun the single command under all configurations
     base, gitdir, plain = make_dirs()
     try:
-        job = {'tool': case['tool'], 'argv': case['argv'], 'stdin': case['stdin']}
+        fx = os.path.join(base, 'fx')
+        os.makedirs(fx)
+        for name, text in FIXTURES.items():
+            with open(os.path.join(fx, name), 'w') as f:
+                f.write(text)
+        job = {'tool': case['tool'], 'argv': [x.replace('{FX}', fx) for x in case['argv']],
+               'stdin': case['stdin']}
         res = [(lab, run_batch([job], hs, gitdir if kind == 'git' else plain)[0])
                for (lab, hs, kind) in configs(case.get('tier', 'quick'))]
     finally:
@@ -421,7 +505,7 @@ def replay(case):
 # ------------------------------------------------------------------ shards --
 def shards(tier, seed):
     thorough = tier == 'thorough'
-    m = menu()
+    m = menu() + file_menu()
     out = []
     seeds = SEEDS if thorough else [0, SEEDS[1 + seed % 4]]
     bsize = 12
